@@ -50,8 +50,10 @@ def node_src(n, ind="") -> list[str]:
         if "setter" in flags:
             L += [f"{ind}@{name}.setter", f"{ind}def {name}(self, value: int) -> None:", f"{ind}    ...", ""]
     elif k == "enum":
-        L.append(f"{ind}class {name}(Enum):")
-        L += [f"{ind}    {c['name']} = {j + 1}" for j, c in enumerate(n["ch"])] or [f"{ind}    pass"]
+        base = next((f[5:] for f in flags if f.startswith("base-")), "Enum")
+        L.append(f"{ind}class {name}({base}):")
+        val = (lambda j: f'"v{j}"') if base == "StrEnum" else (lambda j: str(2 ** j))
+        L += [f"{ind}    {c['name']} = {val(j)}" for j, c in enumerate(n["ch"])] or [f"{ind}    pass"]
         L.append("")
     elif k == "attr":
         L.append(f"{ind}{name}: int = 1")
@@ -59,7 +61,7 @@ def node_src(n, ind="") -> list[str]:
 
 
 def module_src(m) -> str:
-    L = ["from enum import Enum", "import functools", "from typing import overload", f"from {PKG}.basemod import BaseA, BaseB", f"from {PKG}.basemod import BaseA as AliasA", ""]
+    L = ["from enum import Enum, Flag, IntEnum, IntFlag, StrEnum", "import functools", "from typing import overload", f"from {PKG}.basemod import BaseA, BaseB", f"from {PKG}.basemod import BaseA as AliasA", ""]
     for c in m["ch"]:
         L += node_src(c)
     return "\n".join(L) + "\n"
